@@ -14,7 +14,10 @@ for sid in ids:
     m = json.load(open(os.path.join(d, "meta.json")))
     pids = m.get("caught_by") or [m["property"]]
     t = time.time()
-    r = S.detect(d, pids)
+    try:
+        r = S.detect(d, pids)
+    except AssertionError as e:
+        r = {"error": str(e)[:120]}
     ok = any(rc == 1 for rc in r.values())
     print("SEED %-40s %-8s %s (%.0fs)" % (sid, ",".join(pids), "detected" if ok else "NOT DETECTED %r" % r, time.time() - t), flush=True)
     if not ok:
